@@ -394,7 +394,8 @@ type sop struct {
 	from   []string // canonical version names for changes
 	to     []string
 	flt    *l2fault
-	col    int // selo: the non-key column to order by
+	col    int  // selo: the non-key column to order by; selnk: the column of the extra constraint
+	nkval  sval // selnk: c<col> = nkval
 }
 
 // l2fault: a one-shot storage fault for the duration of one statement: the k-th matching request
@@ -675,15 +676,24 @@ func (w *l2world) exec1(op *sop, stats map[string]int) bool {
 			cp := *op
 			w.writes = append(w.writes, pastWrite{&cp, w.curWT[op.c]})
 		}
-	case "sel":
+	case "sel", "selnk":
 		q := "select * from @T"
 		var args []interface{}
-		for i, cn := range op.cons {
-			if i == 0 {
+		nterms := 0
+		if op.kind == "selnk" {
+			// a constraint on a non-key column written FIRST: SQLite hands it to xBestIndex before
+			// the key constraints and filters on it itself
+			q += fmt.Sprintf(" where c%d = ?", op.col)
+			args = append(args, op.nkval.goValue())
+			nterms++
+		}
+		for _, cn := range op.cons {
+			if nterms == 0 {
 				q += " where "
 			} else {
 				q += " and "
 			}
+			nterms++
 			q += "k " + opSQL[cn.op] + " ?"
 			args = append(args, cn.v.goValue())
 		}
@@ -743,7 +753,7 @@ func (w *l2world) exec1(op *sop, stats map[string]int) bool {
 				w.rowsOut(out, nat)
 			}
 		}
-		o.s("sel")
+		o.s(op.kind)
 		o.i(op.c)
 		o.b(op.desc)
 		o.i(len(op.cons))
@@ -752,6 +762,10 @@ func (w *l2world) exec1(op *sop, stats map[string]int) bool {
 			o.sval(cn.v)
 		}
 		o.i(op.limit)
+		if op.kind == "selnk" {
+			o.i(op.col)
+			o.sval(op.nkval)
+		}
 	case "selo":
 		// ORDER BY a non-key column (ties by key): the cursor delivers key order and must not
 		// tell SQLite that any other order is already satisfied
@@ -1485,6 +1499,21 @@ func runL2History(g *gen, prof l2profile, nops int, stats map[string]int) (strin
 				// would make the omission impossible to tell from a wrong row)
 				op.limit = 1 + g.r.Intn(3)
 			}
+			if g.r.Intn(10) == 0 && len(op.cons) > 0 {
+				// a comparison of the key with NULL: never true, no row, no failure
+				op.cons[g.r.Intn(len(op.cons))].v = sval{tag: 'N'}
+				stats["sel_null_operand"]++
+			}
+			if g.r.Intn(6) == 0 && op.limit == 0 {
+				// an additional constraint on a non-key column, written before the key constraints
+				op.kind = "selnk"
+				op.col = g.r.Intn(ncols)
+				op.nkval = sval{tag: 'I', i: int64(g.r.Intn(7) - 2)}
+				if len(recent) > 0 && g.r.Intn(2) == 0 {
+					op.nkval = recent[g.r.Intn(len(recent))]
+				}
+				stats["sel_nonkey_constraint"]++
+			}
 			do(op)
 		case ch < 86 && prof.tx:
 			if !intx[c] {
@@ -1812,6 +1841,11 @@ func runL2(seed int64, n int, dir string, profName string) error {
 		fmt.Fprintf(iw, "%d %s\n", n+1, probeSubsecondWriteTime())
 		stats["probe_subsecond"]++
 	}
+	if profName == "conn" {
+		fmt.Fprintf(cw, "%d probe drop-table-keeps-connection-attributes\n", n+2)
+		fmt.Fprintf(iw, "%d %s\n", n+2, probeDropKeepsAttributes())
+		stats["probe_drop_keeps_attributes"]++
+	}
 	if profName == "vacuum" {
 		fmt.Fprintf(cw, "%d probe vacuum-reclaims-every-expired-marker\n", n+1)
 		fmt.Fprintf(iw, "%d %s\n", n+1, probeVacuumReclaims())
@@ -1889,13 +1923,16 @@ func replaySQL(r *tr) (string, string) {
 		case "del":
 			op.c, op.key = r.i(), r.sval()
 			r.names()
-		case "sel":
+		case "sel", "selnk":
 			op.c, op.desc = r.i(), r.b()
 			n := r.i()
 			for k := 0; k < n; k++ {
 				op.cons = append(op.cons, scon{op: r.next(), v: r.sval()})
 			}
 			op.limit = r.i()
+			if op.kind == "selnk" {
+				op.col, op.nkval = r.i(), r.sval()
+			}
 		case "begin", "commit", "rollback":
 			op.c = r.i()
 			r.names()
